@@ -551,12 +551,26 @@ def c11(tier, seed):
         }
         run.violation(clause, facts, {"trace": tr})
 
+    # bootstrap: "adds its margin and two-party votes to numerator and denominator" also holds for the interval bounds
+    # (not visible in the paired tables): groups with an unexpected unit, a reporting unit and injected draws through the
+    # real aggregate functions, compared with the exact numerator / denominator model of BootstrapIntervals
+    from harness import calls
+
+    krnd = random.Random(seed + 77)
+    known = [calls.known_part_record(krnd) for _ in range(300 if tier == "quick" else 3000)]
+
+    def on_reject_known(tr, clause, inv):
+        run.violation(clause, {"clause": clause, "estimator": "bootstrap", "kind": "known_part", "invariant": inv}, {"trace": tr})
+
+    nk = tracecheck.validate("Trace_Bootstrap", "Trace_Bootstrap_C11.cfg", known, on_reject_known, run=run)
+    run.cov["traces_validated_against_impl"] += nk
+    run.witness("bootstrap_known_part_records", nk)
     n_ok = tracecheck.validate("Trace_LedgerDelta", "Trace_LedgerDelta.cfg", traces, on_reject, run=run)
     run.cov["traces_validated_against_impl"] += max(0, n_ok - run.cov["scenarios_replayed_into_impl"])
     if traces:
         run.sample({"extra_unit": traces[0]["extra"], "obs0_state": traces[0]["obs0"]["tables"].get("postal_code"), "obs1_state": traces[0]["obs1"]["tables"].get("postal_code")})
     run.finish(
-        require_witnesses=["extra_unit_in_state_without_baseline_units", "extra_unit_in_new_county", "pair_nonparametric", "pair_gaussian", "pair_bootstrap"]
+        require_witnesses=["extra_unit_in_state_without_baseline_units", "extra_unit_in_new_county", "pair_nonparametric", "pair_gaussian", "pair_bootstrap", "bootstrap_known_part_records"]
     )
 
 
